@@ -36,13 +36,13 @@ func vgBytes(seed int, n int) []byte {
 	return b
 }
 
-func poisonP(p *SM2Point) {
+func zvPoisonP(p *SM2Point) {
 	utils.VgPoisonPtr(unsafe.Pointer(p.x.GetRaw()), 32)
 	utils.VgPoisonPtr(unsafe.Pointer(p.y.GetRaw()), 32)
 	utils.VgPoisonPtr(unsafe.Pointer(p.z.GetRaw()), 32)
 }
 
-func unpoisonP(p *SM2Point) {
+func zvUnpoisonP(p *SM2Point) {
 	utils.VgUnpoisonPtr(unsafe.Pointer(p.x.GetRaw()), 32)
 	utils.VgUnpoisonPtr(unsafe.Pointer(p.y.GetRaw()), 32)
 	utils.VgUnpoisonPtr(unsafe.Pointer(p.z.GetRaw()), 32)
@@ -52,7 +52,7 @@ func unpoisonP(p *SM2Point) {
 func vgS_ScalarBaseMult(k []byte) {
 	utils.VgPoison(k)
 	p, _ := ScalarBaseMult(k)
-	unpoisonP(p)
+	zvUnpoisonP(p)
 	utils.VgUnpoison(k)
 	vgSink += p.x.GetRaw()[0]
 }
@@ -69,7 +69,7 @@ func vgS_ScalarBaseMult_scheme(which int, k []byte) {
 	default:
 		p, _ = scalarBaseMult_SkipBitExtraction_7_3_12(k)
 	}
-	unpoisonP(p)
+	zvUnpoisonP(p)
 	utils.VgUnpoison(k)
 	vgSink += p.x.GetRaw()[0]
 }
@@ -78,7 +78,7 @@ func vgS_ScalarBaseMult_scheme(which int, k []byte) {
 func vgS_ScalarMult(P *SM2Point, k []byte) {
 	utils.VgPoison(k)
 	p, _ := ScalarMult(P, k)
-	unpoisonP(p)
+	zvUnpoisonP(p)
 	utils.VgUnpoison(k)
 	vgSink += p.x.GetRaw()[0]
 }
@@ -87,10 +87,10 @@ func vgS_ScalarMult(P *SM2Point, k []byte) {
 func vgS_ScalarMult_tainted_point(P *SM2Point, k []byte) {
 	// ECDH: both the scalar and (through the result) the coordinates are sensitive
 	utils.VgPoison(k)
-	poisonP(P)
+	zvPoisonP(P)
 	p, _ := ScalarMult(P, k)
-	unpoisonP(p)
-	unpoisonP(P)
+	zvUnpoisonP(p)
+	zvUnpoisonP(P)
 	utils.VgUnpoison(k)
 	vgSink += p.x.GetRaw()[0]
 }
@@ -101,7 +101,7 @@ func vgS_MultiSelectXY(tbl *[][]*[4]uint64, width int, bits byte) {
 	utils.VgPoison(bb)
 	p := NewSM2Point()
 	p.MultiSelectXY(tbl, width, bb[0])
-	unpoisonP(p)
+	zvUnpoisonP(p)
 	utils.VgUnpoison(bb)
 	vgSink += p.x.GetRaw()[0]
 }
@@ -112,46 +112,46 @@ func vgS_MultiSelectXYZ(tbl *[][]*[4]uint64, width int, bits byte) {
 	utils.VgPoison(bb)
 	p := NewSM2Point()
 	p.MultiSelectXYZ(tbl, width, bb[0])
-	unpoisonP(p)
+	zvUnpoisonP(p)
 	utils.VgUnpoison(bb)
 	vgSink += p.x.GetRaw()[0]
 }
 
 //go:noinline
 func vgS_PointArith(a, b *SM2Point) {
-	poisonP(a)
-	poisonP(b)
+	zvPoisonP(a)
+	zvPoisonP(b)
 	q := NewSM2Point()
 	q.Add(a, b)
 	q.Double(q)
 	q.Negate(q)
 	q.Select(q, a, 1)
 	q.Add(q, q)
-	unpoisonP(q)
-	unpoisonP(a)
-	unpoisonP(b)
+	zvUnpoisonP(q)
+	zvUnpoisonP(a)
+	zvUnpoisonP(b)
 	vgSink += q.x.GetRaw()[0]
 }
 
 //go:noinline
 func vgS_Point_Bytes_safe(a *SM2Point) {
-	poisonP(a)
+	zvPoisonP(a)
 	out := a.Bytes()
 	utils.VgUnpoison(out)
-	unpoisonP(a)
+	zvUnpoisonP(a)
 	vgSink += uint64(out[0])
 }
 
 //go:noinline
 func vgS_Point_GetAffineX_safe(a *SM2Point) {
-	poisonP(a)
+	zvPoisonP(a)
 	x := a.GetAffineX()
 	utils.VgUnpoisonPtr(unsafe.Pointer(x), unsafe.Sizeof(*x))
 	w := x.Bits()
 	if len(w) > 0 {
 		utils.VgUnpoisonPtr(unsafe.Pointer(&w[0]), uintptr(len(w))*unsafe.Sizeof(w[0]))
 	}
-	unpoisonP(a)
+	zvUnpoisonP(a)
 	vgSink += uint64(len(w))
 }
 
